@@ -181,6 +181,11 @@ def run(rep: Report, repo: Repo):
 
 
 def history_evaluated(rep, repo, cmod):
+    from kvstatic.core import cached_rules
+    return cached_rules(rep, repo, 'c09.history', ['circuit'], lambda r: _history_evaluated(r, repo, cmod))
+
+
+def _history_evaluated(rep, repo, cmod):
     """C09.history - kyupy's own Node / Line / Circuit constructors and removers evaluated (Engine M) along generated edit histories and compared, after every
     step, with a shadow model of the documented semantics (kvstatic/graphmodel.py). Returns False when the classes are outside the evaluator subset."""
     import random
